@@ -16,7 +16,7 @@ func readJSON(path string, v interface{}) error {
 }
 
 // c11Extra: grammars aimed at the map sites (several unused tokens, many literals).
-func c11Extra(c *Ctx) []*corpus.Grammar { return nil }
+func c11Extra(c *Ctx) []*corpus.Grammar { return corpus.Awkward() }
 
 // randomGrammars: seeded LL(1) grammars (thorough tiers).
 func randomGrammars(seed uint64, n int) []*corpus.Grammar { return corpus.Random(seed, n) }
